@@ -19,3 +19,8 @@ package fsm
 // a swap never pays out more than the reserve and never lowers the product of the reserves
 //@ lemma[dy_le_reserve] forall x int, y int, dX int :: 0 <= x && 0 <= y && 0 <= dX && (x > 0 || dX > 0) ==> 0 <= dyOf(x, y, dX) && dyOf(x, y, dX) <= y
 //@ lemma[k_nondecreasing] forall x int, y int, dX int :: 0 <= x && 0 <= y && 0 <= dX && (x > 0 || dX > 0) ==> (x + dX) * (y - dyOf(x, y, dX)) >= x * y
+
+// ---- C14: a (validator, height) pair is slashed for double signing at most once ---------------------
+// The indexer's IndexDoubleSigner carries the precondition "not yet indexed" (assumed contract in
+// /verif/spec/externals.contracts); it is checked at its call site here on every path.
+//@ func (*StateMachine).HandleDoubleSigners
